@@ -6,6 +6,8 @@ Driver ops for number literals.
 * `gen_num`: `{"num": N}` → the text `generate_jaqal_value` writes, where `N` is `{"i": int}` or
   `{"f": [neg, mant, exp]}` (`Num.toJson`; integers as JSON numbers or decimal strings).
 * `read_literal`: `{"text": s}` → `N` if the whole of `s` is one NUMBER or INT token, else `null`.
+* `match_number`, `match_int`: `{"text": s}` → `[matched, rest]` (what `re.match` of the token's regular
+  expression consumes at the head of `s`, and what is left) or `null`.
 -/
 namespace Jaqal.NumText
 open Lean
@@ -18,7 +20,20 @@ def opReadLiteral (j : Json) : Jaqal.R Json := do
   let s ← jstr (← jget j "text")
   pure (jofOpt Num.toJson (readLiteral s))
 
+def matchToJson : Option (List Char × List Char) → Json
+  | none => .null
+  | some (m, r) => .arr #[.str (String.ofList m), .str (String.ofList r)]
+
+def opMatchNumber (j : Json) : Jaqal.R Json := do
+  let s ← jstr (← jget j "text")
+  pure (matchToJson (matchNumber s.toList))
+
+def opMatchInt (j : Json) : Jaqal.R Json := do
+  let s ← jstr (← jget j "text")
+  pure (matchToJson (matchInt s.toList))
+
 def ops : List (String × (Json → Jaqal.R Json)) :=
-  [("gen_num", opGenNum), ("read_literal", opReadLiteral)]
+  [("gen_num", opGenNum), ("read_literal", opReadLiteral),
+   ("match_number", opMatchNumber), ("match_int", opMatchInt)]
 
 end Jaqal.NumText
